@@ -56,10 +56,40 @@ package kvql
 // An alias reference stands for a select field that is checked where it is defined.
 //@ define chkOrRef(x Expression) Bool = chk(x) || is(x, *FieldReferenceExpr)
 //
-//@ func (e *BinaryOpExpr) tryRewriteExpr(ctx *CheckCtx)
-//@   props C14
+// inDef(d, t): the expression t occurs in d, looking through operands, arguments, list items and
+// the alias references already resolved in d (definition by unfolding, one step per node kind).
+// An alias reference is only created when the select field it stands for does not contain the
+// expression the name occurs in (clause `acyclic`): a circular reference would make checking and
+// evaluation recurse until the runtime aborts the process (defect D10, property C06). That the
+// recursion of definitionContains itself ends rests on the same fact (no reference cycle is ever
+// created) and on parsed trees being finite; termination is not proved.
+//@ specfun inDef(Int, Int) Bool
+//@ define anyInDef(L []Expression, n Int, t Expression) Bool = exists i Int :: 0 <= i && i < n && inDef(L[i], t)
+//@ axiom in_def(d Expression, t Expression): inDef(d, t) == (d == t || (is(d, *BinaryOpExpr) && (inDef(as(d, *BinaryOpExpr).Left, t) || inDef(as(d, *BinaryOpExpr).Right, t))) || (is(d, *NotExpr) && inDef(as(d, *NotExpr).Right, t)) || (is(d, *FieldReferenceExpr) && inDef(as(d, *FieldReferenceExpr).FieldExpr, t)) || (is(d, *FieldAccessExpr) && (inDef(as(d, *FieldAccessExpr).Left, t) || inDef(as(d, *FieldAccessExpr).FieldName, t))) || (is(d, *FunctionCallExpr) && anyInDef(as(d, *FunctionCallExpr).Args, len(as(d, *FunctionCallExpr).Args), t)) || (is(d, *ListExpr) && anyInDef(as(d, *ListExpr).List, len(as(d, *ListExpr).List), t)))
+//
+//@ func definitionContains(def Expression, target Expression) (found bool)
+//@   props C06 C14
+//@   assigns nothing
+//@   ensures[C06] def: found == inDef(def, target)
+//@   use in_def(def, target)
+//@   loop 0 (arg)
+//@     invariant[C06] none: !anyInDef(as(def, *FunctionCallExpr).Args, rangeindex + 1, target)
+//@   loop 1 (item)
+//@     invariant[C06] none: !anyInDef(as(def, *ListExpr).List, rangeindex + 1, target)
+//
+//@ func checkFieldReference(name *NameExpr, def Expression, within Expression) (err error)
+//@   props C06 C14
+//@   requires name != nil
+//@   assigns nothing
+//@   ensures[C06] guard: (err == nil) == !inDef(def, within)
+//@   ensures syntax: err != nil ==> is(err, *SyntaxError)
+//
+//@ func (e *BinaryOpExpr) tryRewriteExpr(ctx *CheckCtx) (err error)
+//@   props C06 C14
 //@   requires e != nil && ctx != nil && e.Left != nil && e.Right != nil
 //@   assigns e.Left, e.Right
+//@   ensures[C06] acyclic: err == nil ==> (e.Left != old(e.Left) ==> !inDef(as(e.Left, *FieldReferenceExpr).FieldExpr, e)) && (e.Right != old(e.Right) ==> !inDef(as(e.Right, *FieldReferenceExpr).FieldExpr, e))
+//@   ensures syntax: err != nil ==> is(err, *SyntaxError)
 //@   ensures[C14] left: e.Left == old(e.Left) || (is(old(e.Left), *NameExpr) && is(e.Left, *FieldReferenceExpr) && fresh(e.Left))
 //@   ensures[C14] right: e.Right == old(e.Right) || (is(old(e.Right), *NameExpr) && is(e.Right, *FieldReferenceExpr) && fresh(e.Right))
 //@   ensures nonnil: e.Left != nil && e.Right != nil
@@ -164,11 +194,13 @@ package kvql
 //@     invariant 0 <= k && k <= rangeindex && k < len(e.Args) ==> chkOrRef(e.Args[k])
 //@     use e.Args[k]
 //
-//@ func (e *FunctionCallExpr) tryRewriteExpr(idx int, ctx *CheckCtx) (ret Expression)
-//@   props C14
+//@ func (e *FunctionCallExpr) tryRewriteExpr(idx int, ctx *CheckCtx) (ret Expression, err error)
+//@   props C06 C14
 //@   requires e != nil && ctx != nil && 0 <= idx && idx < len(e.Args) && e.Args[idx] != nil
 //@   assigns e.Args[idx]
-//@   ensures[C14] same: ret == e.Args[idx] && ret != nil
+//@   ensures[C14] same: err == nil ==> ret == e.Args[idx] && ret != nil
+//@   ensures[C06] acyclic: err == nil && e.Args[idx] != old(e.Args[idx]) ==> !inDef(as(e.Args[idx], *FieldReferenceExpr).FieldExpr, e)
+//@   ensures syntax: err != nil ==> is(err, *SyntaxError)
 //@   ensures[C14] rewritten: e.Args[idx] == old(e.Args[idx]) || (is(old(e.Args[idx]), *NameExpr) && is(e.Args[idx], *FieldReferenceExpr) && fresh(e.Args[idx]))
 //
 //@ func (e *FieldExpr) Check(ctx *CheckCtx) (err error) implements Expression.Check
